@@ -152,8 +152,11 @@ func (g *genState) mkEp(ns, addr string) gEp {
 				e.t = 't'
 			}
 		default:
-			// endpoint before its pod, or a stale reference
-			e.target = ns + ":" + wire.Pick(r, []string{"p1", "p2", "p3"})
+			// endpoint before its pod (pod pN usually gets 10.0.0.N), or a stale reference
+			e.target = ns + ":p" + addr[len(addr)-1:]
+			if r.Chance(1, 5) {
+				e.target = ns + ":" + wire.Pick(r, []string{"p1", "p2", "p3"})
+			}
 		}
 	}
 	if r.Chance(1, 4) {
@@ -162,6 +165,14 @@ func (g *genState) mkEp(ns, addr string) gEp {
 		e.t = tri(r, e.t)
 	}
 	return e
+}
+
+// pickIP: pod pN usually gets 10.0.0.N, sometimes another address of the pool (IP reuse)
+func (g *genState) pickIP(name string) string {
+	if g.r.Chance(3, 4) {
+		return "10.0.0." + name[1:]
+	}
+	return wire.Pick(g.r, podIPs)
 }
 
 func (g *genState) opPod() {
@@ -176,7 +187,7 @@ func (g *genState) opPod() {
 			p.node = wire.Pick(r, []string{"k1", "k2"})
 		}
 		if r.Chance(1, 2) {
-			p.ip = wire.Pick(r, podIPs)
+			p.ip = g.pickIP(name)
 			p.phase = "R"
 			p.ready = r.Chance(2, 3)
 		}
@@ -187,7 +198,7 @@ func (g *genState) opPod() {
 	switch r.Intn(12) {
 	case 0, 1:
 		if p.ip == "" {
-			p.ip = wire.Pick(r, podIPs)
+			p.ip = g.pickIP(name)
 		}
 		p.phase = "R"
 		p.ready = true
@@ -213,7 +224,7 @@ func (g *genState) opPod() {
 			p.node = wire.Pick(r, []string{"k1", "k2"})
 		}
 		if p.ip == "" {
-			p.ip = wire.Pick(r, podIPs)
+			p.ip = g.pickIP(name)
 		}
 	case 9, 10:
 		delete(g.pods, k)
@@ -367,6 +378,10 @@ func gen(stream string, seed uint64, n int, outp string) {
 		if r.Chance(1, 6) {
 			g.nss = []string{"n1", "n1", "n2"}
 		}
+		if r.Chance(1, 3) {
+			g.simCase()
+			continue
+		}
 		g.wide = r.Chance(1, 3)
 		withNodes := r.Chance(1, 3)
 		length := 2 + r.Intn(14)
@@ -414,4 +429,186 @@ func gen(stream string, seed uint64, n int, outp string) {
 		}
 		out.Line("cold", wire.EncList(order))
 	}
+}
+
+// ---------------------------------------------------------------- realistic histories
+
+// simCase writes the history of a small, well-behaved cluster - a Service selecting app=a, pods that
+// go through Pending / IP / Running / Ready / label edit / Terminating / gone (the next pod may
+// reuse the IP), the slices an endpoint slice controller would write after each pod change, Nodes -
+// as per-kind streams in causal order, and then one random interleaving of the streams (per-kind
+// order kept: that is all the informers guarantee).
+func (g *genState) simCase() {
+	r := g.r
+	var streams [4][]string // node, svc, pod, slice
+	add := func(k int, toks ...string) { streams[k] = append(streams[k], strings.Join(toks, " ")) }
+	kind := wire.Pick(r, []string{"cip", "cip", "hl"})
+	flags := wire.Pick(r, [][]string{nil, nil, {"drain"}})
+	add(1, "svc", "n1", "a", kind, "http:80", "app=a", wire.EncList(flags))
+	withNodes := r.Chance(1, 2)
+	if withNodes {
+		add(0, "node", "k1", "r1", "z1")
+	}
+	type sp struct {
+		name, ip, ver string
+		ready, term   bool
+		alive         bool
+	}
+	pods := []*sp{}
+	twoSlices := r.Chance(1, 3)
+	sliceOf := func(p *sp) string {
+		if twoSlices && p.name != "p1" {
+			return "a-s2"
+		}
+		return "a-s1"
+	}
+	podLine := func(p *sp, phase string) {
+		node := "~"
+		if withNodes {
+			node = "k1"
+		}
+		add(2, "pod", "n1", p.name, wire.Enc(p.ip), phase, wire.B(p.ready), wire.B(p.term), "app=a,version="+p.ver, "sa-"+p.name, node)
+	}
+	writeSlices := func() {
+		for _, sn := range []string{"a-s1", "a-s2"} {
+			if sn == "a-s2" && !twoSlices {
+				continue
+			}
+			var eps []string
+			for _, p := range pods {
+				if !p.alive || p.ip == "" || sliceOf(p) != sn {
+					continue
+				}
+				rd, tm := "t", "f"
+				if !p.ready || p.term {
+					rd = "f"
+				}
+				if p.term {
+					tm = "t"
+				}
+				eps = append(eps, p.ip+"/"+rd+"/t/"+tm+"/n1:"+p.name)
+			}
+			add(3, "slice", "n1", sn, "a", "v4", "http:8080", wire.EncList(eps))
+		}
+	}
+	steps := 3 + r.Intn(8)
+	names := []string{"p1", "p2", "p3"}
+	for i := 0; i < steps; i++ {
+		var live []*sp
+		for _, p := range pods {
+			if p.alive {
+				live = append(live, p)
+			}
+		}
+		switch x := r.Intn(10); {
+		case x < 3 || len(live) == 0:
+			// a new pod (name not in use), Pending without IP, then IP, then ready
+			var name string
+			for _, n := range names {
+				used := false
+				for _, p := range live {
+					if p.name == n {
+						used = true
+					}
+				}
+				if !used {
+					name = n
+					break
+				}
+			}
+			if name == "" {
+				continue
+			}
+			p := &sp{name: name, ver: "v1", alive: true}
+			pods = append(pods, p)
+			podLine(p, "P")
+			// the IP of a pod that is gone may be reused
+			p.ip = "10.0.0." + strconv.Itoa(1+r.Intn(3))
+			for _, q := range live {
+				if q.ip == p.ip {
+					p.ip = "10.0.0." + strconv.Itoa(4+len(pods))
+				}
+			}
+			podLine(p, "R")
+			writeSlices()
+			if r.Chance(3, 4) {
+				p.ready = true
+				podLine(p, "R")
+				writeSlices()
+			}
+		case x < 5:
+			p := wire.Pick(r, live)
+			p.ver = wire.Pick(r, []string{"v1", "v2", "v3"})
+			podLine(p, "R") // label edit that keeps the selector: no slice write follows
+		case x < 6:
+			p := wire.Pick(r, live)
+			if !p.term {
+				p.ready = !p.ready
+				podLine(p, "R")
+				writeSlices()
+			}
+		case x < 9:
+			// termination: deletionTimestamp, slice marks it, pod gone, slice drops it
+			p := wire.Pick(r, live)
+			p.term, p.ready = true, false
+			podLine(p, "R")
+			writeSlices()
+			p.alive = false
+			add(2, "delpod", "n1", p.name)
+			writeSlices()
+		default:
+			if withNodes {
+				add(0, "node", "k1", wire.Pick(r, []string{"r1", "r2"}), "z1")
+			}
+		}
+	}
+	// drop slice writes that repeat the previous version of the same slice
+	last := map[string]string{}
+	var sl []string
+	for _, l := range streams[3] {
+		f := strings.Fields(l)
+		if last[f[2]] == l {
+			continue
+		}
+		last[f[2]] = l
+		sl = append(sl, l)
+	}
+	streams[3] = sl
+	// one interleaving
+	idx := [4]int{}
+	remaining := 0
+	for _, s := range streams {
+		remaining += len(s)
+	}
+	for remaining > 0 {
+		if r.Chance(1, 12) {
+			if g.held {
+				g.emit("release")
+			} else {
+				g.emit("hold")
+			}
+			g.held = !g.held
+		}
+		k := r.Intn(4)
+		if idx[k] >= len(streams[k]) {
+			continue
+		}
+		// bursts: a stream usually delivers a few events in a row
+		n := 1 + r.Intn(3)
+		for ; n > 0 && idx[k] < len(streams[k]); n-- {
+			g.out.Line(streams[k][idx[k]])
+			idx[k]++
+			remaining--
+		}
+	}
+	if g.held {
+		g.emit("release")
+		g.held = false
+	}
+	order := append([]string(nil), kinds...)
+	for i := len(order) - 1; i > 0; i-- {
+		j := r.Intn(i + 1)
+		order[i], order[j] = order[j], order[i]
+	}
+	g.out.Line("cold", wire.EncList(order))
 }
